@@ -11,8 +11,7 @@ TYPES = {"s": (-2 ** 15, 2 ** 15 - 1), "us": (0, 2 ** 16 - 1), "i": (-2 ** 31, 2
          "l": (-2 ** 63, 2 ** 63 - 1), "ul": (0, 2 ** 64 - 1), "ll": (-2 ** 63, 2 ** 63 - 1), "ull": (0, 2 ** 64 - 1)}
 LEVELS = [b"TRACE ", b"DEBUG ", b"INFO  ", b"WARN  ", b"ERROR ", b"FATAL "]
 MACRO_LEVEL = [0, 1, 2, 3, 4, 5, 4, 5]
-F9 = (99949999999999992, 99949999999999999)
-KEY_F9 = "formatSI:6-chars:99949999999999992..99949999999999999"
+F9 = (99949999999999992, 99949999999999999)     # F-9, fixed in the source by af480e4: exercised on every run, no key any more
 KEY_TZ = "Logger:stale-second-cache-after-setTimeZone"
 
 
@@ -210,13 +209,16 @@ def oracle(case, lines, cap, kmax):
             unit = base ** (" KMGTPE".index(u) if u else 0)
             p = len(m.group(2) or "")
             scaled = int(m.group(1) + (m.group(2) or ""))          # value * 10^p
-            # |scaled/10^p * unit - n| <= unit/(2*10^p) + n*2^-51  (half a unit of the last digit + double rounding)
+            # "within rounding error of n": |scaled/10^p * unit - n| <= half a unit of the last printed digit
+            # + 3 * 2^-53 * n (the two binary64 roundings before printf's), in exact integers -- the bound of
+            # C17_units_accurate; without a unit the text must be n itself
             err = abs(scaled * unit - n * 10 ** p)
-            if err * 2 * 2 ** 51 > unit * 2 ** 51 + 2 * n * 10 ** p * 2:
+            if (not u and (p or scaled != n)) or err * 2 ** 53 > unit * 2 ** 52 + 3 * n * 10 ** p:
                 raise Fail(i, "%s -> %r is not within rounding error of n" % (op, txt))
+            if m.group(1) != "0" and m.group(1).startswith("0"):
+                raise Fail(i, "%s -> %r: leading zero" % (op, txt))
             if len(txt) > width:
-                key = KEY_F9 if (k == "SI" and F9[0] <= n <= F9[1]) else None
-                raise Fail(i, "%s(%d) = %r: %d characters, at most %d promised" % ("formatSI" if k == "SI" else "formatIEC", n, txt, len(txt), width), key)
+                raise Fail(i, "%s(%d) = %r: %d characters, at most %d promised" % ("formatSI" if k == "SI" else "formatIEC", n, txt, len(txt), width))
         elif k == "LV":
             level = int(t[1])
         elif k == "TZ":
@@ -546,7 +548,10 @@ def ladder_bounds():
     res = {}
     for name in ("si_ladder", "iec_ladder"):
         m = re.search(r"Definition %s .*?:= \[(.*?)\n\]\." % name, txt, re.S)
-        res[name] = [-(-int(a) // int(b)) for a, b in re.findall(r"Some \((\d+), (\d+)\)", m.group(1))] if m else []
+        res[name] = [-(-int(a) // int(b)) for a, b in re.findall(r"\((?:OnInt|OnDouble) \((\d+)\) \((\d+)\),", m.group(1))] if m else []
+        if not res[name]:
+            # never continue with an empty table: the generators below aim at these bounds
+            raise RuntimeError("ladder_bounds: no rung bound of %s found in coq/Gen_C17.v (format of lib/gen_C17.py's output changed?)" % name)
     return res
 
 
@@ -572,7 +577,19 @@ def gen_units(rng, count):
             vals.add(int(2 ** k * 9.995) + d)
             vals.add(int(2 ** k * 99.95) + d)
             vals.add(int(2 ** k * 1023.5) + d)
-    vals = sorted(v for v in vals if -1 <= v <= 2 ** 63 and not F9[0] <= v <= F9[1])
+    vals.update(range(F9[0] - 9, F9[1] + 3))          # F-9's eight integers and their neighbours
+    # decimal ties of the last printed digit +-1,2 (where the binary64 roundings decide the digit:
+    # C17_half_unit_alone_refuted), for every unit and precision
+    vals.add(9145000000000001)
+    for base in (1000, 1024):
+        for ue in range(1, 7):
+            for p in (0, 1, 2):
+                step2 = base ** ue                     # 2 * half a unit of the last digit, times 10^p
+                for j in (100, 101, 314, 914, 961, 998, 999, 1023):
+                    tie = (2 * j + 1) * step2 // (2 * 10 ** p)
+                    for d in (-2, -1, 0, 1, 2):
+                        vals.add(tie + d)
+    vals = sorted(v for v in vals if -1 <= v <= 2 ** 63)
     rnd = []
     for _ in range(count):
         c = rng.random()
@@ -583,7 +600,7 @@ def gen_units(rng, count):
             v = b + rng.randint(-max(4, b // 10 ** 6), max(4, b // 10 ** 6))
         else:
             v = rng.randrange(2 ** 63)
-        if 0 <= v < 2 ** 63 and not F9[0] <= v <= F9[1]:
+        if 0 <= v < 2 ** 63:
             rnd.append(v)
     allv = vals + rnd
     cases = []
@@ -776,8 +793,10 @@ def run(chk, replay=None):
                 "harness/C17_driver.cc: #define private public for buffer_/data_/SourceFile; -Wl,--wrap=gettimeofday,syscall for scripted time/tid in LOG/M ops (real clock and tid in NOW ops)",
                 "translator lib/gen_consts.py + lib/gen_C17.py (clang 14 JSON AST): constants, digit tables, LogLevelName, fit tests, level gates, formatSI/IEC ladders",
                 "glibc snprintf/strerror_r/gmtime, Python's %d/%X/%.12g formatting and time.gmtime in the oracle",
-                "formatSI/formatIEC: the model's binary64 arithmetic (to_double, div_double, fixed_scaled, in Z) is NOT validated against Flocq; its agreement with "
-                "the hardware/glibc is correspondence-only (every rung bound +-3, dense random n)")
+                "formatSI/formatIEC: width and accuracy are proved for ALL n about the model's exact arithmetic (C17_Model.rne: a rational rounded to nearest, "
+                "ties to even; to_double, div_double, fixed_scaled built on it); that this arithmetic IS the hardware's binary64 conversion/division and glibc's "
+                "correctly rounded %.<p>f is not proved (no Flocq link): it is tied by the correspondence run (every rung bound +-3, the neighbours at the "
+                "spacing of doubles, F-9's range, decimal ties +-2, dense random n against the real functions)")
 
     for c, f in known:
         chk.known(f.key, "key=%s %s" % (f.key, f.msg))
@@ -846,5 +865,6 @@ def run(chk, replay=None):
         "snprintf(\"%.12g\") yields at most 24 characters (Section hypothesis of C17_in_bounds / C17_line_shape; DESIGN 3.4)",
         "the broken-down time handed to the line model is TimeZone::toUtcTime/toLocalTime of the second (C20); the harness uses glibc gmtime as its stand-in",
         "that time stamp and thread id are the true ones is established by the harness only (call-window inequalities, gettid of the emitting thread, forked child)",
-        "formatSI/formatIEC width and accuracy: refuted for F-9 by computation in the exact Z model, otherwise correspondence-only (model not validated against Flocq)",
+        "formatSI/formatIEC: C17_si_width / C17_iec_width / C17_units_accurate hold for every 0 <= n < 2^63 of the model, whose round-to-nearest-even arithmetic "
+        "is assumed to be binary64's and glibc's (tested by the correspondence run, not proved)",
         "the model is tied to the code by regenerated tables/guards and differential execution (testing), not by a verified C++ semantics"])
